@@ -87,7 +87,7 @@ class Hexital:
                 indicator.candle_manager = self._candles[indicator.timeframe]
             else:
                 manager = CandleManager(
-                    deepcopy(self._candles[DEFAULT_CANDLES]).candles,
+                    self._raw_candles_copy(),
                     candles_lifespan=self.candles_lifespan,
                     timeframe=indicator.timeframe if indicator.timeframe else self.timeframe,
                     timeframe_fill=self.timeframe_fill,
@@ -97,6 +97,17 @@ class Hexital:
                 indicator.candle_manager = self._candles[manager.name]
 
         return valid_indicators
+
+    def _raw_candles_copy(self) -> List[Candle]:
+        """Copy of the default candles with any candlestick conversion undone,
+        a new timeframe has to collapse and convert the raw values itself"""
+        candles = deepcopy(self._candles[DEFAULT_CANDLES].candles)
+        for candle in candles:
+            if candle.tag:
+                candle.recover_clean_values()
+                candle.clean_values = {}
+                candle.reset_candle()
+        return candles
 
     def _build_indicator(self, raw_indicator: dict) -> Indicator:
         analysis_map = PATTERN_MAP | MOVEMENT_MAP
@@ -204,7 +215,9 @@ class Hexital:
         self._indicators.pop(name, None)
 
     def append(self, candles: Candle | List[Candle] | dict | List[dict] | list | List[list]):
-        for candle_manager in self._candles.values():
+        # The default manager keeps (and converts) the given Candle objects themselves,
+        # so every other timeframe has to take its copy of the raw candles first
+        for candle_manager in reversed(list(self._candles.values())):
             candle_manager.append(candles)
 
         self.calculate()
